@@ -105,5 +105,15 @@ def run(rep, tier, seed, replay):
             found = True
             rep.violation({"kind": "history", "oracle": "the HOTKEY report lists at most capacity keys, none twice, in non-increasing heat, only accessed keys",
                            "case": {"line": cases[i], "format": "capacity then rounds: collect@minute:key*hits,... or evict@minute"}, "impl": impl[i], "failing_cases": len(bad)})
+        # end to end: requests through the real request path and filter chain; the backend connection's counter then holds
+        # exactly the keys accessed (1..400 bytes long, some sharing prefixes of hundreds of bytes) with exactly their counts
+        res = differential(rep, PROP, "c19e2e", seed, 150 if quick else 5000, tier, model_modes=[])
+        cases, impl = res["cases"], res["impl"]
+        bad = [i for i in range(len(cases)) if impl[i] != "ok"]
+        add_corr(rep, "Requests through handleRequest and the filter chain: the connection's access counter lists exactly the accessed keys with their counts", res, bad, len(set(cases)))
+        if bad and not found:
+            i = bad[0]
+            found = True
+            rep.violation({"kind": "history", "mode": "c19e2e", "oracle": impl[i], "case": {"line": cases[i], "format": "seed nkeys (harness c19e2e -in <file>)"}, "impl": impl[i], "failing_cases": len(bad)})
     if not pr["ok"] and not found:
         rep.violation({"kind": "broken-tie", "theorem": pr.get("broken"), "detail": pr.get("tail"), "searched": "oracles hold on every dump and report"}, found_input=False)
